@@ -38,8 +38,18 @@ fn flush(t: &Tally, out: &mut Out) {
     out.count("second_updates_compared", t.second_updates);
 }
 
-// the last four compose Bengali emoji names on the fixed layouts (হাসি, লল, কুল, "হাসি")
-const WORDS: [&str; 20] = ["amar", "as", "kotha", "ami", "onno", "amare", "asgulo", "kothay", "tumi", "(amar)", "\"as\"", "kk", "amargulo", "onnoder", "a", "bd", "hasi", "ll", "kul", "\"hasi\""];
+// the first three contain number-pad keys; the last four compose Bengali emoji names on the fixed layouts (হাসি, লল, কুল, "হাসি")
+/// characters that stand for number-pad keys in the word list
+fn key_of(c: char) -> u16 {
+    let kp = |n: &str| keys().iter().find(|k| k.name == n).unwrap().code;
+    match c {
+        '¹' => kp("VC_KP_1"),
+        '²' => kp("VC_KP_2"),
+        '÷' => kp("VC_KP_DIVIDE"),
+        c => kc(c),
+    }
+}
+const WORDS: [&str; 23] = ["k¹", "¹²÷", "a÷¹", "amar", "as", "kotha", "ami", "onno", "amare", "asgulo", "kothay", "tumi", "(amar)", "\"as\"", "kk", "amargulo", "onnoder", "a", "bd", "hasi", "ll", "kul", "\"hasi\""];
 const ACS: [&str; 6] = [
     r#"{"amar":"tomar","as":"ash"}"#,
     r#"{"amar":"kemon","kotha":"kOtha"}"#,
@@ -151,7 +161,7 @@ fn type_word(s: &Sess, w: &str, end: Option<usize>, t: &mut Tally) -> Result<(Ve
     let mut hl = 0u8;
     for c in w.chars() {
         t.calls += 1;
-        let sg = s.key(kc(c), 0, hl)?;
+        let sg = s.key(key_of(c), 0, hl)?;
         hl = if sg.is_lonely() { 0 } else { sg.previously_selected_index().min(255) as u8 };
         outv.push(format!("{} ongoing={}", Rs::of(&sg).to_json(), s.ongoing()?));
         last = Some(sg);
